@@ -68,12 +68,25 @@ def run(ctx):
         net = netgen.random_net(rng, dcline=rng.random() < 0.4, allow_oos=False,
                                 kinds=("line", "trafo", "trafo3w", "load", "sgen", "gen", "shunt", "switch"))
         n_steps = rng.randint(3, 4)
+        # power flow options handed to run_timeseries (and to the reference loop)
+        pf_kw = {"trafo_loading": rng.choice(["current", "power"])}
+        if rng.random() < 0.3:
+            pf_kw["calculate_voltage_angles"] = rng.random() < 0.5
+        # every third case aims at the batch reader: recyclable controllers only, batch-readable variables logged for the whole table
+        batch_case = (k % 3 == 2)
+        if len(net.trafo) and (batch_case or rng.random() < 0.4):
+            # generation behind a transformer: power flows from its lv to its hv side
+            ti = rng.choice(list(net.trafo.index))
+            pp.create_sgen(net, int(net.trafo.lv_bus.at[ti]), 0.6 * float(net.trafo.sn_mva.at[ti]), 0.2 * float(net.trafo.sn_mva.at[ti]))
         ctrl_specs = []
         first = CONTROLLED[k % len(CONTROLLED)]
         extra = rng.sample(CONTROLLED, rng.randint(0, 2))
-        if len(net.trafo3w) and rng.random() < 0.6:
+        if batch_case:
+            first = rng.choice(CONTROLLED[:5])
+            extra = rng.sample(CONTROLLED[:5], rng.randint(0, 2))
+        if len(net.trafo3w) and rng.random() < 0.6 and not batch_case:
             extra.append(("trafo3w", "tap_pos"))
-        diverge_step = rng.randrange(n_steps - 1) if rng.random() < 0.25 else None
+        diverge_step = rng.randrange(n_steps - 1) if rng.random() < 0.25 and not batch_case else None
         for tab, col in [first] + extra:
             if not len(net[tab]) or (tab, col) in [(a, b) for a, b, *_ in ctrl_specs]:
                 continue
@@ -91,6 +104,9 @@ def run(ctx):
                                 columns=[f"load.p_mw.div.{i0}"])
             ctrl_specs = [c for c in ctrl_specs if (c[0], c[1]) != ("load", "p_mw")] + [("load", "p_mw", [i0], prof)]
         logs = rng.sample(LOGS, rng.randint(1, 4))
+        if batch_case:
+            logs = [("res_trafo", "loading_percent")] + rng.sample([("res_bus", "vm_pu"), ("res_line", "loading_percent"), ("res_line", "i_ka"),
+                                                                    ("res_trafo", "i_hv_ka"), ("res_trafo3w", "loading_percent")], rng.randint(0, 2))
         logs = [lv for lv in logs if len(net[lv[0][4:]])]
         if rng.random() < 0.4 and ("res_line", "loading_percent") in logs and ("res_line", "i_ka") not in logs:
             logs.append(("res_line", "i_ka"))
@@ -99,12 +115,12 @@ def run(ctx):
         # explicit element indices for some logged variables (any order, also a full permutation of the table)
         log_index = {}
         for lv in logs:
-            if rng.random() < 0.4:
+            if rng.random() < 0.4 and not batch_case:
                 idx_all = [int(i) for i in net[lv[0][4:]].index]
                 pick = rng.sample(idx_all, rng.choice([len(idx_all), max(1, len(idx_all) // 2)]))
                 log_index[lv] = pick
         case = {"log_index": {f"{a}.{b}": v for (a, b), v in log_index.items()}, "diverge_step": diverge_step, "net_json": pp.to_json(net), "controllers": [(t, c, i, p.values.tolist()) for t, c, i, p in ctrl_specs], "logs": logs,
-                "steps": n_steps}
+                "steps": n_steps, "pf_options": pf_kw}
         # reference: plain loop on a copy
         ref = copy.deepcopy(net)
         want = {lv: [] for lv in logs}
@@ -116,7 +132,7 @@ def run(ctx):
                     ref[tab].at[i, col] = bool(v) if col == "in_service" else float(v)
             try:
                 with core.quiet():
-                    pp.runpp(ref)
+                    pp.runpp(ref, **pf_kw)
             except pp.LoadflowNotConverged:
                 if diverge_step is None:
                     ok = False
@@ -148,16 +164,19 @@ def run(ctx):
                     dis += 1
                     ctx.tie_break("correspondence:C12", f"controller on {tab}.{col}: recycle {real_t}, generated table {table[(tab, col)]}")
         tmp = tempfile.mkdtemp(prefix="c12_")
-        ow = OutputWriter(ts, time_steps=range(n_steps), output_path=None, log_variables=[])
-        for tab, var in logs:
+        # plain (table, variable) pairs handed to the constructor keep the batch reading after the loop available; log_variable()
+        # stores longer tuples, which switch it off
+        plain = not log_index and (batch_case or rng.random() < 0.5)
+        ow = OutputWriter(ts, time_steps=range(n_steps), output_path=None, log_variables=[tuple(lv) for lv in logs] if plain else [])
+        for tab, var in ([] if plain else logs):
             if (tab, var) in log_index:
                 ow.log_variable(tab, var, index=log_index[(tab, var)])
             else:
                 ow.log_variable(tab, var)
-        ow.remove_log_variable("res_bus", "vm_pu") if ("res_bus", "vm_pu") not in logs else None
+        ow.remove_log_variable("res_bus", "vm_pu") if ("res_bus", "vm_pu") not in logs and not plain else None
         try:
             with core.quiet():
-                run_timeseries(ts, time_steps=range(n_steps), verbose=False, continue_on_divergence=diverge_step is not None)
+                run_timeseries(ts, time_steps=range(n_steps), verbose=False, continue_on_divergence=diverge_step is not None, **pf_kw)
         except Exception as e:       # noqa
             ctx.count(case["net_json"] + json.dumps(case["controllers"]) + json.dumps(logs), nontrivial=True)
             ctx.failure(f"raises:{type(e).__name__}", f"run_timeseries with controllers {[(a, b) for a, b, *_ in ctrl_specs]} logging {logs} raised "
@@ -181,7 +200,13 @@ def run(ctx):
                 ctx.failure(f"shape:{key}", f"{key}: recorded shape {got.shape}, reference {w.shape}", case)
                 continue
             with np.errstate(invalid="ignore"):
-                bad = ~((np.isnan(got) & np.isnan(w)) | np.isinf(w) | (np.abs(got - w) <= 1e-6 * np.maximum(1.0, np.abs(w))))
+                # loading_percent = 100 * current / rating: the solver tolerance (1e-8 MVA) shows up amplified for small ratings
+                tol_ = 1e-4 if var == "loading_percent" else 1e-6
+                bad = ~((np.isnan(got) & np.isnan(w)) | np.isinf(w) | (np.abs(got - w) <= tol_ * np.maximum(1.0, np.abs(w))))
+                if var == "loading_percent":
+                    # a branch in an unsupplied island: runpp itself reports NaN (trafo_loading='current', lines) or 0.0
+                    # (trafo_loading='power'); both mean 'no loading'
+                    bad &= ~((np.isnan(got) & (w == 0)) | (np.isnan(w) & (got == 0)))
             if bad.any():
                 t_, j_ = [int(v[0]) for v in np.nonzero(bad)]
                 ctx.failure(f"differs:{'+'.join(sorted(set(a for a, b, *_ in ctrl_specs)))}",
@@ -190,7 +215,7 @@ def run(ctx):
                 break
         ctx.sample({"controllers": [(a, b) for a, b, *_ in ctrl_specs], "logs": logs}, cap=5)
     ctx.cov["correspondence"] = {"requests": ncorr, "disagreements": dis}
-    ctx.assumptions.append("controllers are ConstControl with DFData profiles (the recycle decision is theirs); the reference applies the "
+    ctx.assumptions.append("loading_percent of branches in unsupplied islands: NaN and 0.0 are treated alike (runpp reports either, depending on trafo_loading); controllers are ConstControl with DFData profiles (the recycle decision is theirs); the reference applies the "
                            "same values in the same order and runs runpp with default options; cases whose reference does not converge "
                            "at some step are skipped")
 
